@@ -234,6 +234,42 @@ def expand_module(tree: ast.Module, modname: str) -> int:
                 call = None
                 if isinstance(st, (ast.Assign, ast.AnnAssign, ast.AugAssign, ast.Return, ast.Expr)) and isinstance(getattr(st, "value", None), ast.Call):
                     call = st.value
+                # helper calls that are unconditionally evaluated operands of the statement's value, `F(a=h(p), b=h(q))`, are read
+                # as `_arg1 = h(p); _arg2 = h(q); F(a=_arg1, b=_arg2)`
+                if isinstance(st, (ast.Assign, ast.AnnAssign, ast.AugAssign, ast.Return, ast.Expr)) and getattr(st, "value", None) is not None:
+                    hoisted = []
+
+                    class _Hoist(ast.NodeTransformer):
+                        def _skip(self, node):
+                            return node
+                        visit_Lambda = visit_ListComp = visit_SetComp = visit_DictComp = visit_GeneratorExp = _skip
+                        visit_IfExp = visit_BoolOp = _skip
+
+                        def visit_Call(self, node):
+                            self.generic_visit(node)
+                            if node is call:
+                                return node
+                            h, _ = resolve(node)
+                            if h is None or _bind(h, node, _) is None:
+                                return node
+                            body_ = [s for s in h.body if not (isinstance(s, ast.Expr) and isinstance(s.value, ast.Constant))]
+                            if single_exit(copy.deepcopy(body_), "_probe") is None:
+                                return node
+                            counter[0] += 1
+                            nm = f"_arg__h{counter[0]}"
+                            a = ast.Assign(targets=[ast.Name(id=nm, ctx=ast.Store())], value=node)
+                            ast.copy_location(a, st)
+                            ast.fix_missing_locations(a)
+                            hoisted.append(a)
+                            return ast.copy_location(ast.Name(id=nm, ctx=ast.Load()), node)
+                    st.value = _Hoist().visit(st.value)
+                    for a in hoisted:
+                        r = inline_call(a.value)
+                        if r is not None:
+                            stmts_, retvar = r
+                            out.extend(stmts_)
+                            a.value = ast.copy_location(ast.Name(id=retvar, ctx=ast.Load()), a)
+                        out.append(a)
                 if call is not None:
                     r = inline_call(call)
                     if r is not None:
@@ -304,6 +340,10 @@ def expand_module(tree: ast.Module, modname: str) -> int:
         for n in ast.walk(tree):
             if isinstance(n, ast.FunctionDef) and n.name.startswith("_") and not n.name.startswith("__"):
                 cands.append(n)
+            if isinstance(n, ast.FunctionDef):
+                for st in ast.walk(n):
+                    if st is not n and isinstance(st, ast.FunctionDef) and st not in cands:
+                        cands.append(st)
         for h in cands:
             inside = {id(x) for x in ast.walk(h)}
             refs = 0
@@ -315,6 +355,16 @@ def expand_module(tree: ast.Module, modname: str) -> int:
             qual_known = any(k.endswith(":" + h.name) or k.endswith("." + h.name) for k in known if k.startswith(modname + ":"))
             if refs == 0 and not qual_known:
                 h._inlined_away = True
+        # nested definitions that were read at all their call sites are dropped from the enclosing body
+        for n in ast.walk(tree):
+            if isinstance(n, ast.FunctionDef):
+                for holder in ast.walk(n):
+                    if holder is not n and isinstance(holder, (ast.FunctionDef, ast.ClassDef)):
+                        continue
+                    for fld in ("body", "orelse", "finalbody"):
+                        v = getattr(holder, fld, None)
+                        if isinstance(v, list) and any(isinstance(x, ast.FunctionDef) and getattr(x, "_inlined_away", False) for x in v):
+                            v[:] = [x for x in v if not (isinstance(x, ast.FunctionDef) and getattr(x, "_inlined_away", False))] or [ast.Pass()]
     return counter[0]
 
 
